@@ -529,6 +529,8 @@ def _gen_ts_case(rng, kind=None):
         a = rng.uniform(-50, 50)
         b = a + rng.uniform(5, 200)
         xrows = [[a + (b - a) * (v + 1) / 2 for v in _abscissae(rng, nx)] for _ in range(ntrace)]
+        if ntrace >= 3 and rng.random() < 0.5:
+            xrows[-1] = list(xrows[0])      # first and last trace share their positions, the inner ones do not
         if rng.random() < 0.5:
             c['xmin'] = math.floor(a)
             c['xmax'] = math.floor(a) + math.ceil(b - a) + 1
